@@ -676,12 +676,11 @@ def run_cli(cx):
         if not cands:
             continue
         k = rng.choice(sorted(cands))
-        plainj = json.loads(open(out, "rb").read().decode("utf-8"))      # numbers as numbers, for re-serialisation
-        newv = dict(plainj["qpdf"][1][k]["value"])
+        newv = dict(objs[k]["value"])
         newv["/EditedByC14"] = "u:changed \u20ac"
-        edit = {"qpdf": [plainj["qpdf"][0], {k: {"value": newv}}]}
+        edit = {"qpdf": [val["qpdf"][0], {k: {"value": newv}}]}
         ep = os.path.join(wd, "e%d-edit.json" % i)
-        open(ep, "w").write(json.dumps(edit))
+        open(ep, "w").write(dump_json(edit))      # numbers keep the spelling qpdf wrote
         ejobs.append((i, dd, out, k, ep, val))
 
     def run_e(t):
@@ -757,6 +756,25 @@ def cmp_gen(a, b, pend, path):
                 return p
         return ""
     return "" if a == b and type(a) == type(b) else "%s: %r became %r" % (path, a, b)
+
+
+def dump_json(v):
+    """serialise a value read by c14.strict_loads: numbers (c14.Num) are written with their original spelling"""
+    if isinstance(v, c14.Num):
+        return str(v)
+    if isinstance(v, str):
+        return json.dumps(v)
+    if v is None:
+        return "null"
+    if v is True:
+        return "true"
+    if v is False:
+        return "false"
+    if isinstance(v, list):
+        return "[" + ", ".join(dump_json(x) for x in v) + "]"
+    if isinstance(v, dict):
+        return "{" + ", ".join(json.dumps(k) + ": " + dump_json(x) for k, x in v.items()) + "}"
+    raise TypeError(type(v))
 
 
 def shape(v):
